@@ -955,6 +955,22 @@ void Analyser::AnalyserImpl::analyseNode(const XmlNodePtr &node,
 
         ast->mPimpl->populate(AnalyserEquationAst::Type::PIECEWISE, astParent);
 
+        if (childCount == 0) {
+            // Note: an empty piecewise statement is not something that the
+            //       validator reports, but it has no value, so we cannot
+            //       analyse it.
+
+            auto issue = Issue::IssueImpl::create();
+
+            issue->mPimpl->setDescription("Math has a 'piecewise' element without at least one MathML child.");
+            issue->mPimpl->setReferenceRule(Issue::ReferenceRule::MATH_MATHML);
+            issue->mPimpl->mItem->mPimpl->setMath(component);
+
+            addIssue(issue);
+
+            return;
+        }
+
         analyseNode(mathmlChildNode(node, 0), ast->mPimpl->mOwnedLeftChild, ast, component, equation);
 
         if (childCount >= 2) {
